@@ -9,7 +9,7 @@ From FJ Require Import Lib.Base Lib.Bytes Spec.ImageSpec Model.PyIR Model.Fjm.
 From FJ Require Import Gen.Facts_Loader.        (* regenerated; keep on its own line *)
 Local Open Scope N_scope.
 
-Definition ldr_cfg : config := mkconfig 0 0 [].
+Definition ldr_cfg : config := mkconfig 0 0 [] (fun _ => None).
 (* _init_memory calls _validate_segments: call depth 2 *)
 Definition callL : fname -> list value -> world -> eres := call_at ldr_cfg loader_program 2.
 
